@@ -24,6 +24,9 @@ type Ctx struct {
 	Run  *core.Run
 	Tier string
 	src  *tmpl.Source
+	// the interpretation of package main, once per run
+	cliDone  bool
+	cliPaths []*cliPath
 }
 
 func (c *Ctx) Source() (*tmpl.Source, error) {
